@@ -437,6 +437,36 @@ def apply_tl(W, op):
         for n, b in zip(nodes, before):
             if b in given and n.taxon is not given[b]:
                 return [("memo-honoured", "a node labelled %r was not moved to the taxon the caller's memo names" % (b.label,))]
+    elif name == "migrate-shared-memo":
+        # two collections over one namespace are moved into a new one with ONE memo that starts EMPTY and without unification by label
+        # (the documented way to keep them on the same taxa): what sat on one taxon before sits on one taxon afterwards, across both lists
+        W.relist(cur)
+        src_ns = N.ns_of(cur)
+        other = TreeList(taxon_namespace=src_ns)
+        mem = N.members(src_ns)
+        if len(mem) >= 3:
+            other.append(_mk_tree(_B3, mem[:3], src_ns))
+        elif len(mem) >= 1:
+            other.append(_mk_tree((None, [(0, [])]) if len(mem) == 1 else (None, [(0, []), (1, [])]), mem[:2], src_ns))
+        memo = {}
+        dest = W.new_ns("empty")
+        nodes = [n for tl_ in (cur, other) for t in tl_._trees for n in N.tree_nodes(t) if n.taxon is not None]
+        before = [n.taxon for n in nodes]
+        how = op[1]
+        for tl_ in (cur, other):
+            if how == "migrate":
+                tl_.migrate_taxon_namespace(dest, unify_taxa_by_label=False, taxon_mapping_memo=memo)
+            else:
+                tl_._taxon_namespace = dest
+                tl_.reconstruct_taxon_namespace(unify_taxa_by_label=False, taxon_mapping_memo=memo)
+        for t in cur._trees:
+            W.rec(t).unified = False
+        after = [n.taxon for n in nodes]
+        for i in range(len(nodes)):
+            for k in range(i + 1, len(nodes)):
+                if before[i] is before[k] and after[i] is not after[k]:
+                    return [("taxon-not-duplicated", "two nodes (of two collections moved with one shared memo) that shared the taxon %r now reference two different taxa; "
+                             "the destination holds %r" % (before[i].label, [t.label for t in N.members(dest)]))]
     elif name == "reconstruct":
         W.relist(cur)
         cur.reconstruct_taxon_namespace()
@@ -813,6 +843,8 @@ DS_SOURCES = {
     "newick-new": ("(X,(Y,Z));", "newick", ["X", "Y", "Z"]),
     "newick-case": ("(a,(b,G));", "newick", ["a", "b", "G"]),
     # character data keyed by labels that are case variants of members: the readers resolve a name as the namespace does
+    # a TREES block whose TRANSLATE statement introduces the taxa (no TAXA block) and whose tree names one of them by its LABEL
+    "nexus-translate-by-label": ("#NEXUS\nBEGIN TREES;\n TRANSLATE 1 A, 2 B, 3 X;\n TREE t = (A,(2,3));\n TREE u = ((1,B),X);\nEND;\n", "nexus", ["A", "B", "X"]),
     "fasta-case": (">a\nACGT\n>b\nACGA\n>G\nAAAA\n", "fasta", ["a", "b", "G"]),
     "phylip-case": ("3 4\na ACGT\nb ACGA\nG AAAA\n", "phylip", ["a", "b", "G"]),
 }
@@ -1153,7 +1185,7 @@ def tl_alphabet(cs, small=False):
         ops.append(["migrate", n])
         ops.append(["clone", n])
     ops.append(["migrate-nounify", "empty"])
-    ops += [["migrate-memo", "all"], ["migrate-memo", "some"]]
+    ops += [["migrate-memo", "all"], ["migrate-memo", "some"], ["migrate-shared-memo", "migrate"], ["migrate-shared-memo", "reconstruct"]]
     ops += [["reconstruct"], ["update_ns"], ["pop", "0"], ["pop", "-1"], ["remove", "0"], ["del", "-1"], ["clear"],
             ["scoped_copy"], ["deepcopy"]]
     ops += [["rename", "A", "X"], ["rename", "B", "Q"]]
